@@ -653,18 +653,23 @@ def e2e(ctx, mods, bases):
     aapp.add_route('/f', ARes())
     for which, cl in (('wsgi', testing.TestClient(app)), ('asgi', testing.TestClient(aapp))):
         for b in bases:
+            valid_ok = False
             for body, valid in ((b['body'], True), (b['body'][: max(0, len(b['body']) - 3)], False)):
+                if not valid and not valid_ok:
+                    continue
                 r = cl.simulate_post('/f', body=body, headers={'Content-Type': b['content_type']})
                 ctx.note_case(('e2e', which, body), True)
                 ctx.count('e2e-' + which)
-                detail = {'parser': 'e2e-' + which, 'case': jsonable({'body': body, 'content_type': b['content_type']}),
+                detail = {'parser': 'e2e-' + which, 'content_type': b['content_type'],
+                          'case': jsonable({'body': body, 'content_type': b['content_type']}),
                           'status_code': r.status_code}
                 if valid:
                     exp = [[p['name'], p['filename'], expected_view(p)['content_type'], p['content'].hex()]
                            for p in b['parts']]
-                    if r.status_code != 200 or r.json != exp:
+                    valid_ok = r.status_code == 200 and r.json == exp
+                    if not valid_ok:
                         ctx.violation('e2e-multipart-roundtrip', dict(detail, got=r.text[:500], expected=exp),
-                                      key='e2e-' + which)
+                                      key='e2e-%s-%s' % (which, r.status_code))
                 elif r.status_code not in (200, 400):
                     ctx.violation('e2e-truncated-body-not-400', dict(detail, got=r.text[:300]), key='e2e-400-' + which)
 
